@@ -207,6 +207,7 @@ class Script(object):
         self.levels = [Scope()]
         self.commands = []     # (name, info)
         self.checks = 0
+        self.global_decls = False     # (set-option :global-declarations true): declarations and definitions survive pop / reset-assertions
 
     # -- lookups through the stack
     def sort_arity(self, name):
@@ -687,7 +688,11 @@ def run_command(s, rd, c):
         name = c[0].text
         _need(name in KNOWN_COMMANDS, "unknown command %s" % name)
         cur = s.levels[-1]
-        if name == "set-logic":
+        dcl = s.levels[0] if s.global_decls else cur        # where declarations and definitions are recorded
+        if name == "set-option" and len(c) == 3 and getattr(c[1], "text", None) == ":global-declarations":
+            s.global_decls = getattr(c[2], "text", None) == "true"
+            s.commands.append((name, tuple(c[1:])))
+        elif name == "set-logic":
             _need(len(c) == 2, "set-logic arity")
             s.logic = symname(c[1])
             s.commands.append((name, s.logic))
@@ -697,7 +702,7 @@ def run_command(s, rd, c):
             ar = int(c[2].text) if len(c) == 3 else 0
             _need(s.sort_arity(nm) is None and nm not in ("Bool", "Int", "Real", "String", "Array", "BitVec"),
                   "sort %s declared twice" % nm)
-            cur.sorts[nm] = ar
+            dcl.sorts[nm] = ar
             s.commands.append((name, (nm, ar)))
         elif name in ("declare-fun", "declare-const"):
             nm = symname(c[1])
@@ -712,7 +717,7 @@ def run_command(s, rd, c):
             _need(not (c[1].kind == "sym" and (nm in RESERVED or nm in KNOWN_COMMANDS)),
                   "reserved word %s used as a symbol without quotes" % nm)
             _need(nm not in THEORY_SYMBOLS, "theory symbol %s redeclared" % nm)
-            cur.funs[nm] = (ps, ret)
+            dcl.funs[nm] = (ps, ret)
             s.commands.append((name, (nm, ps, ret)))
         elif name == "define-fun":
             _need(len(c) == 5 and isinstance(c[2], list), "define-fun shape")
@@ -729,7 +734,7 @@ def run_command(s, rd, c):
             body, bs = rd.term(c[4], env)
             _need(bs == ret, "define-fun %s: body of sort %s, declared %s" % (nm, bs, ret))
             _need(not s.declared_anywhere(nm), "symbol %s defined twice" % nm)
-            cur.defs[nm] = (ps, ret, body, bs)
+            dcl.defs[nm] = (ps, ret, body, bs)
             s.commands.append((name, (nm, tuple(ps), ret, body)))
         elif name == "assert":
             _need(len(c) == 2, "assert arity")
@@ -749,7 +754,12 @@ def run_command(s, rd, c):
                 s.levels.pop()
             s.commands.append((name, k))
         elif name == "reset-assertions":
-            s.levels = [Scope()]
+            if s.global_decls:
+                keep = s.levels[0]
+                keep.assertions, keep.named = [], {}
+                s.levels = [keep]
+            else:
+                s.levels = [Scope()]
             s.commands.append((name, None))
         elif name == "reset":
             s.levels = [Scope()]
@@ -793,7 +803,7 @@ def run_command(s, rd, c):
                   nm not in ("Bool", "Int", "Real", "String", "Array", "BitVec"), "sort %s declared twice" % nm)
             ps = [symname(x) for x in c[2]]
             parse_sort(c[3], s, dict((p_, ("CUSTOM", "#" + p_)) for p_ in ps))      # well-formed with opaque parameters
-            cur.sortdefs[nm] = (ps, c[3])
+            dcl.sortdefs[nm] = (ps, c[3])
             s.commands.append((name, (nm, len(ps))))
         elif name in ("define-fun-rec", "define-funs-rec", "declare-datatype", "declare-datatypes"):
             raise SmtError("command %s not covered by the reference reader" % name, unsupported=True)
